@@ -424,7 +424,39 @@ def g_large(ctx, rng, i):
         _try(g.meet, cls(B), cls(A))
 
 
+def g_small(ctx, rng, i):
+    """Small figures: finite lattice points scaled by 2^-6 ... 2^-14 about an integer offset (coordinates stay exactly representable, the
+    last coordinate is 1): independent objects whose join / meet tensor is small but far above the tolerance must not be reported
+    dependent, coincident ones must."""
+    g = G()
+    s = 2.0 ** -[6, 10, 12, 14][i % 4]
+    dim = 2 + (i // 4) % 2
+    off = gen.coords(rng, (dim,), 3, "int").astype(float) * [0, 1][(i // 8) % 2]
+    pts = [np.append(off + s * gen.coords(rng, (dim,), 4, "int"), 1.0) for _ in range(4)]
+    P = [g.Point(p) for p in pts]
+    _try(g.join, P[0], P[1])
+    _try(P[0].join, P[1])
+    _try(g.join, P[0], g.Point(pts[0] * 3))
+    if dim == 3:
+        _try(g.join, P[0], P[1], P[2])
+        l, m = _try(g.join, P[0], P[1]), _try(g.join, P[2], P[3])
+        if not isinstance(l, Exception) and not isinstance(m, Exception):
+            _try(g.meet, l, m)
+            _try(g.join, l, m)
+            _try(l.is_coplanar, m)
+    else:
+        l, m = _try(g.join, P[0], P[1]), _try(g.join, P[2], P[3])
+        if not isinstance(l, Exception) and not isinstance(m, Exception):
+            _try(g.meet, l, m)
+    k = 5
+    A = np.stack([np.append(off + s * gen.coords(rng, (dim,), 4, "int"), 1.0) for _ in range(k)])
+    B = np.stack([np.append(off + s * gen.coords(rng, (dim,), 4, "int"), 1.0) for _ in range(k)])
+    B[1] = A[1]
+    _try(g.join, g.PointCollection(A), g.PointCollection(B))
+
+
 GROUPS = [
+    {"name": "small", "fn": g_small, "quick": 160, "thorough": 1600},
     {"name": "large", "fn": g_large, "quick": 60, "thorough": 600},
     {"name": "lattice2d", "fn": g_lattice2d, "quick": 125 * 125, "thorough": 125 * 125},
     {"name": "lattice3d", "fn": g_lattice3d, "quick": 81 * 81, "thorough": 81 * 81},
